@@ -73,7 +73,11 @@ def main():
         results.append(r)
     ev = merge_evidence([r["ev"] for r in results])
     ev["wall_s"] = round(time.time() - t0, 2)
-    vlib.write_json(os.path.join(VERIF, "evidence", prop + ".json"), ev)
+    # evidence/<id>.json describes runs against /repo itself; a run against another tree (CELMA_REPO, used to try
+    # seeded changes in scratch worktrees) must not overwrite it
+    evdir = os.path.join(VERIF, "evidence") if os.path.realpath(vlib.REPO) == "/repo" else os.path.join(
+        tempfile.gettempdir(), "celma_verif_evidence_other_tree")
+    vlib.write_json(os.path.join(evdir, prop + ".json"), ev)
     rc = max(r["rc"] for r in results)
     for r in results:
         for l in r["lines"]:
@@ -301,7 +305,10 @@ def run(plugin, prop, tier, seed, work, replay, t0):
     cov["distinct_nontrivial"] = len(distinct)
     cov["rule"] = getattr(plugin, "RULE", {}).get(prop, "") if isinstance(getattr(plugin, "RULE", None), dict) else getattr(plugin, "RULE", "")
     cov["samples"] = samples
-    cov["input_distribution"] = dict(sorted(dist.items()))
+    top = sorted(dist.items(), key=lambda kv: -kv[1])
+    cov["input_distribution"] = dict(sorted(top[:80]))
+    if len(top) > 80:
+        cov["input_distribution"]["(other %d operation kinds)" % (len(top) - 80)] = sum(v for _, v in top[80:])
     cov["exhaustive"] = bool(exhaustive_note) and not problems and not broken
     if exhaustive_note:
         cov["exhaustive_spaces"] = exhaustive_note
